@@ -168,6 +168,16 @@ def run_history(kind, h, hold=1.5):
     baseline = set(threading.enumerate())
     port = _free_port(kind)
     handler = None
+    # virtual time for Thread.join(timeout) inside the server modules: a finite time-out elapses ten times faster
+    # (a handler held for 1.5 s outlasts a join of up to 15 s); joins without time-out are unaffected
+    class _FastJoinThread(threading.Thread):
+        def join(self, timeout=None):
+            return super().join(None if timeout is None else timeout / 10.0)
+    _shim = types.SimpleNamespace(**{k: getattr(threading, k) for k in dir(threading) if not k.startswith("__")})
+    _shim.Thread = _FastJoinThread
+    _mod = S if kind == "tftp" else H
+    _old_threading = _mod.threading
+    _mod.threading = _shim
     if kind == "tftp":
         handler = _TftpHandler()
         srv = S.TftpServer([handler], "::1", port, default_timeout=0.3, max_retries=0)
@@ -366,6 +376,7 @@ def run_history(kind, h, hold=1.5):
             if hang:
                 break
     finally:
+        _mod.threading = _old_threading
         if handler is not None:
             handler.release.set()
         try:
